@@ -80,8 +80,10 @@ LeafInit(s, id) ==
     [] OTHER                     -> [s |-> s, id |-> id, iss |-> 1]
 BundleInit(b, srv) == IF b = "current" /\ HasCrt(srv) THEN srv.id ELSE 8
 DefName(r) == IF r = "r1" THEN "def" ELSE "def2"
+Req2Host(c) == IF c.inst.n = "none" THEN "h" ELSE c.inst.h
 Reqs(c) == <<[k |-> c.kind, h |-> c.req.h, r |-> "r1", v |-> c.req.v]>>
-           \o (IF c.req2 THEN <<[k |-> c.kind, h |-> "h", r |-> "r2", v |-> "t1"]>> ELSE <<>>)
+           \* the second request: another repository of the registry the installed package came from ("h" if none is installed)
+           \o (IF c.req2 THEN <<[k |-> c.kind, h |-> Req2Host(c), r |-> "r2", v |-> "t1"]>> ELSE <<>>)
 InitPkgs(c) == IF c.inst.n = "none" THEN {}
                ELSE {[k |-> c.kind, n |-> c.inst.n, h |-> c.inst.h, r |-> "r1", v |-> c.inst.v]}
 InitStore(c) ==
@@ -206,13 +208,22 @@ CrashAfter ==
   /\ EndRun("aborted") /\ nf' = nf + 1 /\ inj' = TRUE /\ everInj' = TRUE
   /\ hist' = Append(hist, [t |-> "fault", run |-> run, at |-> Labels[pc], f |-> "crashAfter"])
   /\ UNCHANGED <<cfg, loc, run, prev>>
+\* Another actor (a second initializer, a certificate manager) makes the CA secret complete between this run's read of it
+\* and its write: the write is refused (AlreadyExists for a Create, Conflict for the Update of the empty secret), the run
+\* is aborted with the other actor's CA in place - the next run loads and keeps it.
+RivalCA ==
+  /\ CanFault /\ Labels[pc] = "tls.put.ca" /\ st.ca.s \in {"absent", "empty"}
+  /\ st' = [st EXCEPT !.ca = [s |-> "complete", id |-> 7]]      \* (7: neither the initial material's CA nor the issuer 9 of "foreign" leaves)
+  /\ EndRun("aborted") /\ nf' = nf + 1 /\ inj' = TRUE /\ everInj' = TRUE
+  /\ hist' = Append(hist, [t |-> "fault", run |-> run, at |-> Labels[pc], f |-> "rivalca"])
+  /\ UNCHANGED <<cfg, loc, run, prev>>
 \* the initializer is started again (the pod restarts, the chart is upgraded ...)
 Rerun ==
   /\ pc = 0 /\ run < MaxRuns
   /\ run' = run + 1 /\ pc' = 1 /\ loc' = Loc0 /\ res' = "none" /\ inj' = FALSE
   /\ prev' = [valid |-> TRUE, clean |-> ~inj, st |-> st]
   /\ UNCHANGED <<cfg, st, nf, everInj, hist>>
-Next == Ok \/ Fail \/ CrashAfter \/ Rerun
+Next == Ok \/ Fail \/ CrashAfter \/ RivalCA \/ Rerun
 Spec == Init /\ [][Next]_vars
 
 \* ---- properties (design level; MonInit.tla evaluates their counterparts on the real executions) ----
